@@ -34,7 +34,8 @@ XML_STRUCT_FAULTS = [
     "child_in_simple", "xsi_type_bad", "xsi_type_empty", "xsi_type_unbound", "xsi_nil_true", "xsi_nil_false", "undeclared_prefix",
     "wrong_root", "dup_attr", "prolog_encoding", "prolog_doctype", "ns_change", "xsi_type_class", "xsi_type_class", "xsi_type_class_empty", "xsi_other_attr", "el_dup_many", "nest_self", "text_long", "attr_many",
 ]
-JSON_STRUCT_FAULTS = ["value_text", "value_text", "value_text", "key_delete", "key_rename", "value_junk", "list_wrap", "list_unwrap", "key_add", "list_grow", "nest_value"]
+JSON_STRUCT_FAULTS = ["value_text", "value_text", "value_text", "key_delete", "key_rename", "key_rename", "value_junk", "value_junk", "list_wrap", "list_unwrap", "key_add", "list_grow", "nest_value", "key_hoist", "json_deep"]
+DEEP_LEVELS = [50, 400, 3000, 100000]
 XSI_TYPES = ["nosuchtype", "xs:nosuch", "item", "dog", "xs:int", "xs:QName", "xs:date", "xs:hexBinary", "xs:base64Binary", "xs:boolean", "xs:duration", "xs:dateTime", "xs:gYear",
              "xs:decimal", "xs:float", "xs:NMTOKENS", "xs:anyURI", "xs:NOTATION", "xs:time", "xs:unsignedByte", "xs:anyType", "xs:anySimpleType", "xs:string", "xs:language", "xs:IDREFS"]
 JUNK_TEXT = ["1E+600000000", "1E+999999999999", "-1E-600000000", "9" * 5000, "1" + "0" * 4000 + ".5", "p:", ":x", "xs:", "xml:lang", "99999999-01-01", "2020-01-01+14:00", "2020-01-01-14:01", "-2020-01-01", "2020-01-01T24:00:00", "2020-01-01T23:59:60", "P1Y-2M", "1e-400", "0" * 400, "-", "+", "-", "1_000", "0x1", "Infinity", "nan", "1e400", " 5 ", "TRUE", "true ", "-P", "P1Y2M3DT", "PT", "2020-01-01T00:00:00+15:00", "0000-01-01", "2020-02-30", "12:00:00.1234567890123", "--02-30", "-0", ".", "1.", "1e", "٣", "٣.٥",
@@ -44,9 +45,16 @@ JUNK_TEXT = ["1E+600000000", "1E+999999999999", "-1E-600000000", "9" * 5000, "1"
              "2020-01-01Z", "2020-01-01T00:00:00", "2020-01-01T12:00:00+00:00:00", "2020-01-01T12:00:00z", "2020-1-1", "---15", "---32", "--12", "--13", "2020", "2020-12", "02020-01-01",
              "9223372036854775807", "9223372036854775808", "-9223372036854775809", "18446744073709551616", "\u22121", "1,5", "1 000", "True", "False", "yes", "0 ", "1\u00a0", "\u20031",
              "aGVsbG8", "aGVs bG8=", "aGVsbG8==", "aGVsbG8=\n", "=aGVsbG8", "ZZ", "abc", "0xZZ", "AbCd ", "1e5", "1E5", "1.0", "+1", "INF", "-INF", "+INF", "1d", "1f", "1L", "0b1", "1__0", "0o7",
-             "ns0:x", "xs:string", "xsd:int", "{}x", "{urn:x}", "a b", "a:b:c", "xml:x", "xmlns:x", "\ud7ff", "\ufffd", "\U0001f600", "&", "<", "]]>"]
+             "ns0:x", "xs:string", "xsd:int", "{}x", "{urn:x}", "a b", "a:b:c", "xml:x", "xmlns:x", "\ud7ff", "\ufffd", "\U0001f600", "&", "<", "]]>",
+             "sNaN", "-sNaN", "snan", "NaN1", "sNaN7", "-Infinity", "-NaN", "1E", "E5", "0E0", "-0.0", "00.00", "+.5", "1,5E2", "PT1,5S", "PT0:30S", "PT1 5S", "P1DT1,5S", "12:00:00,5", "2020-01-01T12:00:00,5"]
 JUNK_JSON = [{"qname": "a", "type": None, "value": {"qname": "b", "type": None, "value": 1}}, {"qname": "a", "type": "{urn:x}dog", "value": [1]}, [None, None], {"": 1}, [{"": {}}], 1e308 * 10, -0.0,
-             None, True, 0, -1, 1.5, 1e400, "", "abc", [], [[]], [1, [2]], {}, {"a": 1}, {"qname": "q", "type": None, "value": 1}, {"qname": "q", "text": None, "tail": None, "children": [], "attributes": {}}, [None], "9" * 40, {"value": {}}]
+             None, True, 0, -1, 1.5, 1e400, "", "abc", [], [[]], [1, [2]], {}, {"a": 1}, {"qname": "q", "type": None, "value": 1}, {"qname": "q", "text": None, "tail": None, "children": [], "attributes": {}}, [None], "9" * 40, {"value": {}},
+             # generic-element shaped objects with unusable parts
+             {"qname": "", "type": None, "value": 1}, {"qname": None, "type": None, "value": 1}, {"qname": 5, "type": None, "value": 1}, {"qname": "{", "type": None, "value": 1}, {"qname": "{}", "type": None, "value": 1},
+             {"qname": "a", "type": "", "value": 1}, {"qname": "a", "type": 5, "value": 1}, {"qname": "a", "type": "{", "value": {}}, {"qname": "a", "type": None, "value": None}, {"qname": "a", "type": "{urn:x}dog", "value": None},
+             {"qname": "a", "type": None}, {"qname": None, "text": None, "tail": None, "children": [], "attributes": {}}, {"qname": "", "text": "", "tail": "", "children": [], "attributes": {}},
+             {"qname": "q", "text": 5, "tail": [], "children": {}, "attributes": []}, {"qname": "q", "text": None, "tail": None, "children": [1, None, "s"], "attributes": {"": None, "{": 1}},
+             {"qname": "q", "text": None, "tail": None, "children": [{"qname": None}], "attributes": None}, {"qname": [], "value": {}}, {"qname": {}, "type": [], "value": []}, "sNaN", {"value": "sNaN"}]
 
 
 # ---------------------------------------------------------------- stores
@@ -357,9 +365,40 @@ def _set(value, path, new):
     return value
 
 
+def _json_keys(value):
+    """Every member name of the document, sorted (iterative: documents may be nested deeply)."""
+    out = set()
+    stack = [value]
+    while stack:
+        v = stack.pop()
+        if isinstance(v, dict):
+            out.update(k for k in v if isinstance(k, str))
+            stack.extend(v.values())
+        elif isinstance(v, list):
+            stack.extend(v)
+    return sorted(out)
+
+
+def json_deep_parts(f, keys):
+    """Opening and closing text of one nesting level, and the number of levels."""
+    mode = f["idx2"] % 3
+    key = keys[f["idx"] % len(keys)] if mode == 2 and keys else "value"
+    depth = DEEP_LEVELS[f["val"] % len(DEEP_LEVELS)]
+    return ("[", "]", depth) if mode == 0 else ("{%s:" % json.dumps(key), "}", depth)
+
+
 def apply_json_struct_fault(value, f):
-    value = copy.deepcopy(value)
-    paths = _json_paths(value)
+    try:
+        value = copy.deepcopy(value)
+        paths = _json_paths(value)
+    except RecursionError:  # an earlier fault nested the document too deeply for the harness to edit it again
+        return value, False
+    if f["k"] == "json_deep":
+        # the whole document sits below many levels of arrays or objects (decoded input: levels capped at 3000)
+        op, _, depth = json_deep_parts(f, _json_keys(value))
+        for _ in range(min(depth, 3000)):
+            value = [value] if op == "[" else {json.loads(op[1:-1]): value}
+        return value, True
     path = paths[f["idx"] % len(paths)]
     k = f["k"]
     junk = copy.deepcopy(JUNK_JSON[f["val"] % len(JUNK_JSON)])
@@ -381,9 +420,22 @@ def apply_json_struct_fault(value, f):
             return _set(value, path, [cur] * [10, 40, 120][f["val"] % 3]), True
         if k == "nest_value":
             cur = _get(value, path)
-            for _ in range([3, 10, 30][f["val"] % 3]):
-                cur = {"value": cur} if f["idx2"] % 2 else [cur]
+            keys = _json_keys(value)
+            mode = f["idx2"] % 3
+            key = keys[f["val"] % len(keys)] if mode == 2 and keys else "value"
+            for _ in range([3, 10, 30, 400, 3000][f["val"] % 5]):
+                cur = [cur] if mode == 0 else {key: cur}
             return _set(value, path, cur), True
+        if k == "key_hoist":
+            # the members of a nested object move up into its parent (a wrapper or child level goes missing)
+            dpaths = [p for p in paths if p and isinstance(_get(value, p), dict) and isinstance(_get(value, p[:-1]), dict)]
+            if not dpaths:
+                return value, False
+            p = dpaths[f["idx"] % len(dpaths)]
+            parent = _get(value, p[:-1])
+            child = parent.pop(p[-1])
+            parent.update(child)
+            return value, True
         if k == "list_unwrap":
             cur = _get(value, path)
             if isinstance(cur, list) and cur:
@@ -403,7 +455,9 @@ def apply_json_struct_fault(value, f):
             if k == "key_delete":
                 del d[key]
             else:
-                d[["renamed", key.upper(), key + "_", ""][f["val"] % 4]] = d.pop(key)
+                keys = _json_keys(value)
+                names = ["renamed", key.upper(), key + "_", ""] + keys
+                d[names[f["val"] % len(names)]] = d.pop(key)
             return value, True
     except Exception:
         return value, False
@@ -464,6 +518,14 @@ def materialize(case):
             data = new
         elif dec.startswith("xml"):
             data, ok = apply_xml_struct_fault(data, f)
+        elif f["k"] == "json_deep":
+            try:
+                keys = _json_keys(json.loads(data))
+            except Exception:
+                keys = []
+            op, cl, depth = json_deep_parts(f, keys)
+            data = op.encode() * depth + data + cl.encode() * depth
+            ok = True
         else:
             try:
                 value = json.loads(data)
@@ -592,9 +654,32 @@ def is_instance_of(result, clazz):
     if get_origin(clazz) is list:
         inner = get_args(clazz)[0]
         return isinstance(result, list) and all(is_instance_of(r, inner) for r in result)
-    if isinstance(result, DerivedElement):
-        return isinstance(result.value, clazz)
+    # a derived-element document ({"qname", "type", "value"}) decodes to the generic wrapper around the
+    # instance; the document may nest that shape, and the result then nests the wrapper the same way
+    for _ in range(64):
+        if not isinstance(result, DerivedElement):
+            break
+        result = result.value
     return isinstance(result, clazz)
+
+
+def _decoded_size(value):
+    """Approximate text size of a decoded JSON value (iterative: documents may be nested deeply)."""
+    n = 0
+    stack = [value]
+    while stack:
+        v = stack.pop()
+        if isinstance(v, dict):
+            n += 2
+            for k, x in v.items():
+                n += len(str(k)) + 4
+                stack.append(x)
+        elif isinstance(v, list):
+            n += 2 + len(v)
+            stack.extend(v)
+        else:
+            n += len(str(v)) + 2
+    return n
 
 
 def run_case(case, context, meter, base_steps):
@@ -612,7 +697,7 @@ def run_case(case, context, meter, base_steps):
     tool = make_decoder(case, context)
     key = case_key(case)
     valid_len = len(Store.xml[case["doc"]][0]) if dec.startswith("xml") else len(Store.json[case["doc"]][0])
-    got_len = len(payload) if isinstance(payload, (bytes, str)) else len(json.dumps(payload, default=str))
+    got_len = len(payload) if isinstance(payload, (bytes, str)) else _decoded_size(payload)
     growth = max(1.0, got_len / max(1, valid_len))
     budget = int(20 * base_steps.get(key, 2000) * growth) + 20000
     out = {"landed": landed, "budget": budget, "growth": growth}
